@@ -440,6 +440,15 @@ func isErrorReturn(ret *ssa.Return) bool {
 	if isFreshError(last) {
 		return true
 	}
+	// `return discard(err)`: a helper or closure that hands its error argument back
+	for i := 0; i < 2; i++ {
+		if a := passedThroughArg(last); a != nil {
+			last = a
+			if isFreshError(last) {
+				return true
+			}
+		}
+	}
 	edges := errNonNilEdges(last)
 	if len(edges) == 0 {
 		return false
@@ -555,6 +564,132 @@ func storedAndReloaded(v ssa.Value) []ssa.Value {
 			if ld, ok := in.(*ssa.UnOp); ok && ld.Op == token.MUL && ld.X == ssa.Value(a) {
 				out = append(out, ld)
 			}
+		}
+	}
+	return out
+}
+
+// cutWithHelpers builds for fn the cut that mk yields, plus every (non-deferred) call of a static
+// library helper in which every path to a return passes the helper's own such cut (bounded
+// depth): a step that was moved into a helper still counts as passed at the call.
+func cutWithHelpers(w *core.World, fn *ssa.Function, mk func(*ssa.Function, *core.Cut), depth int) *core.Cut {
+	cut := core.NewCut()
+	mk(fn, cut)
+	if depth <= 0 {
+		return cut
+	}
+	for _, c := range core.Calls(fn) {
+		if _, ok := c.(*ssa.Call); !ok {
+			continue
+		}
+		g := core.StaticCallee(c)
+		if g == nil || g == fn || !w.InLib(g) || len(g.Blocks) == 0 {
+			continue
+		}
+		gc := cutWithHelpers(w, g, mk, depth-1)
+		if len(gc.Instrs)+len(gc.Edges) == 0 {
+			continue
+		}
+		if hit, _ := core.Reach(core.Entry(g), core.IsReturn, gc); hit == nil {
+			cut.AddInstr(c.(ssa.Instruction))
+		}
+	}
+	return cut
+}
+
+// passedThroughArg: v is the (error) result of a call of a library function or local closure whose
+// every return hands back one and the same parameter as that result; returns the argument.
+func passedThroughArg(v ssa.Value) ssa.Value {
+	var call *ssa.Call
+	ridx := 0
+	switch t := v.(type) {
+	case *ssa.Call:
+		call = t
+	case *ssa.Extract:
+		c, ok := t.Tuple.(*ssa.Call)
+		if !ok {
+			return nil
+		}
+		call, ridx = c, t.Index
+	default:
+		return nil
+	}
+	g := core.StaticCallee(call)
+	if g == nil || len(g.Blocks) == 0 {
+		return nil
+	}
+	pi := -1
+	for _, in := range allInstrs(g) {
+		ret, ok := in.(*ssa.Return)
+		if !ok {
+			continue
+		}
+		if ridx >= len(ret.Results) {
+			return nil
+		}
+		for _, src := range core.Sources(ret.Results[ridx]) {
+			p, ok := src.(*ssa.Parameter)
+			if !ok {
+				return nil
+			}
+			i := paramIndex(p)
+			if pi >= 0 && pi != i {
+				return nil
+			}
+			pi = i
+		}
+	}
+	args := core.CallArgs(call)
+	if pi < 0 || pi >= len(args) {
+		return nil
+	}
+	return args[pi]
+}
+
+// sourcesThroughClosure is core.Sources extended through captured variables: a load of a free
+// variable of a closure is replaced by the sources of every value stored to the captured cell in
+// the enclosing function.
+func sourcesThroughClosure(v ssa.Value) []ssa.Value {
+	var out []ssa.Value
+	for _, s := range core.Sources(v) {
+		u, ok := s.(*ssa.UnOp)
+		if !ok || u.Op != token.MUL {
+			out = append(out, s)
+			continue
+		}
+		fv, ok := u.X.(*ssa.FreeVar)
+		if !ok {
+			out = append(out, s)
+			continue
+		}
+		clo := fv.Parent()
+		parent := clo.Parent()
+		idx := -1
+		for i, f := range clo.FreeVars {
+			if f == fv {
+				idx = i
+			}
+		}
+		found := false
+		if parent != nil && idx >= 0 {
+			for _, in := range allInstrs(parent) {
+				mc, ok := in.(*ssa.MakeClosure)
+				if !ok || mc.Fn != ssa.Value(clo) || idx >= len(mc.Bindings) {
+					continue
+				}
+				cell := mc.Bindings[idx]
+				if refs := cell.Referrers(); refs != nil {
+					for _, r := range *refs {
+						if st, ok := r.(*ssa.Store); ok && st.Addr == cell {
+							out = append(out, core.Sources(st.Val)...)
+							found = true
+						}
+					}
+				}
+			}
+		}
+		if !found {
+			out = append(out, s)
 		}
 	}
 	return out
